@@ -260,3 +260,94 @@ def check_c06_scratch(chk, v):
                             bad="%s (extent %s with N = 2h): an element left over from an earlier call or from the allocator feeds the transform" % (
                                 detail, sym.show(ext)), variant=vn)
                 chk.vcount(vn, "R5.scratch_buffers")
+
+
+# ------------------------------------------------------------------------------ 1-D coverage of [0, n) by counted loops
+def _eval_int(t, env):
+    """integer value of a term under env (term -> int); None when not evaluable"""
+    if t in env:
+        return env[t]
+    k = t[0]
+    if k == "int":
+        return t[1]
+    c = sym.const_value(t)
+    if c is not None:
+        return c
+    if k == "call" and t[1] == "$loop_end":
+        lo, hi, step, code, _ = t[2]
+        lo, hi, step = _eval_int(lo, env), _eval_int(hi, env), _eval_int(step, env)
+        if None in (lo, hi, step) or step <= 0 or code[1] not in (0, 1):
+            return None
+        i = lo
+        while (i < hi) if code[1] == 0 else (i <= hi):
+            i += step
+        return i
+    items = sym.poly_items(t)
+    if items is None:
+        return None
+    tot = 0
+    for mono, coef in items:
+        v = coef
+        for a in mono:
+            if a == t:
+                return None
+            x = _eval_int(a, env)
+            if x is None:
+                return None
+            v *= x
+        tot += v
+    return tot
+
+
+def cover_1d(terms, n):
+    """terms: [(loop descriptor, index term, sign)], each meaning  sum over the loop of sign * f(index).
+    Decides whether the indices are exactly [0, n), once each and with one sign, for EVERY n >= 1.
+    Applies to loops with a positive constant step, bound n + const (or a constant), start a constant or the end value of an
+    earlier loop, and index = loop variable + const: then the covered set depends on n through floor/residue of (n + const)
+    by the steps only, so the statement is periodic in n with period L = lcm(steps) beyond D = max |const|; it is evaluated
+    on n = 1 .. D + 2L + 2 by interpreting the loop descriptors (no code is run).
+    -> ("proved" | "refuted" | "unknown", detail)"""
+    from math import gcd
+    L, D = 1, 0
+    for lp, g, sg in terms:
+        s = sym.const_value(lp["step"])
+        if s is None or s <= 0 or lp["cmp"] not in ("<", "<="):
+            return "unknown", "loop at line %s is not an ascending constant-step loop" % lp.get("l")
+        L = L * s // gcd(L, s)
+        lin = sym.linear_in(lp["hi"], n)
+        if lin is None or lin[0] not in (I(0), I(1)) or sym.const_value(lin[1]) is None:
+            return "unknown", "bound %s is not n + const" % sym.show(lp["hi"])
+        D = max(D, abs(sym.const_value(lin[1])))
+        off = sym.const_value(sym.sub(g, lp["var"]))
+        if off is None:
+            return "unknown", "index %s is not the loop variable plus a constant" % sym.show(g)
+        D = max(D, abs(off))
+    for nv in range(1, D + 2 * L + 3):
+        env = {n: nv}
+        seen = {}
+        for lp, g, sg in terms:
+            lo, hi, s = _eval_int(lp["lo"], env), _eval_int(lp["hi"], env), sym.const_value(lp["step"])
+            if lo is None or hi is None:
+                return "unknown", "loop range [%s, %s) cannot be evaluated" % (sym.show(lp["lo"]), sym.show(lp["hi"]))
+            off = sym.const_value(sym.sub(g, lp["var"]))
+            i = lo
+            while (i < hi) if lp["cmp"] == "<" else (i <= hi):
+                seen.setdefault(i + off, []).append(sg)
+                i += s
+        want = set(range(nv))
+        missing = sorted(want - set(seen))
+        extra = sorted(set(seen) - want)
+        dup = sorted(k for k, v in seen.items() if len(v) > 1)
+        signs = {x for v in seen.values() for x in v}
+        if missing or extra or dup or len(signs) > 1:
+            what = []
+            if missing:
+                what.append("index %s is never visited" % missing[0])
+            if extra:
+                what.append("index %s outside [0,n) is visited" % extra[0])
+            if dup:
+                what.append("index %s is visited %d times" % (dup[0], len(seen[dup[0]])))
+            if len(signs) > 1:
+                what.append("terms enter with different signs")
+            return "refuted", "for n = %d: %s" % (nv, "; ".join(what))
+    return "proved", "indices are exactly [0, n), once each, for every n (period %d, checked n = 1..%d)" % (L, D + 2 * L + 2)
